@@ -1373,8 +1373,8 @@ impl Property for C02 {
     }
     fn budget(tier: Tier) -> u64 {
         match tier {
-            Tier::Quick => 300_000,
-            Tier::Thorough => 5_000_000,
+            Tier::Quick => 600_000,
+            Tier::Thorough => 8_000_000,
         }
     }
 
